@@ -6,7 +6,7 @@ from typing import Any
 
 from sa.kern import make_evaluator, py_calls
 from sa.report import Ctx
-from sa.srcmodel import FuncInfo, func_body
+from sa.srcmodel import desugared, FuncInfo, func_body
 from sa.symterm import Env, Evaluator, Poly, Unsupported, show
 
 INST = "moptipyapps.binpacking2d.instance"
@@ -82,7 +82,7 @@ def run(ctx: Ctx) -> None:
     ctx.rule("D3.1", "geometric bound is an exact ceiling of the full item "
              "area; the stored bound is max(damv, geo); consumers read it")
     repo = ctx.repo
-    new = repo.func(INST, "Instance.__new__")
+    new = desugared(repo.func(INST, "Instance.__new__"))
     cm = _ConstructorModel(ctx, new)
     ok_area, why_area = cm.accumulates(cm.area_var, None)
     ctx.ob("D3.1", new, cm.node_of(cm.area_var), ok_area,
@@ -302,6 +302,14 @@ class _ConstructorModel:
         """(geometric part, other part) of obj.lower_bound_bins = max(..)."""
         v = self.attr("lower_bound_bins")
         at = v.as_atom() if isinstance(v, Poly) else None
+        if at is not None and at[0] == "ite" and isinstance(
+                at[2], Poly) and isinstance(at[3], Poly):
+            # `x if x >= y else y` (any spelling) is max(x, y)
+            from sa.casesplit import equivalent
+            from sa.symterm import ite
+            x_, y_ = at[2], at[3]
+            if equivalent(v, ite(("le", y_, x_), x_, y_))[0]:
+                at = ("app", "max", (x_, y_))
         if at is None or at[0] != "app" or at[1] != "max" or len(
                 at[2]) != 2 or A is None:
             return None, None
@@ -346,7 +354,7 @@ class _ConstructorModel:
 def _constructor_stores(ctx: Ctx) -> None:
     """Instance.__new__ keeps the data and the derived attributes."""
     repo = ctx.repo
-    new = repo.func(INST, "Instance.__new__")
+    new = desugared(repo.func(INST, "Instance.__new__"))
     cm = _ConstructorModel(ctx, new)
     body = func_body(new)
 
@@ -406,8 +414,18 @@ def _constructor_stores(ctx: Ctx) -> None:
                 n_rows = cm.ev.num(cm.gw.loop_envs[id(lp)], lp.iter.args[0])
             except (Unsupported, KeyError):
                 n_rows = None
-            okc = okc or (t == f"{objn}[{i},:]" and src(c.value) ==
-                          f"{mat}[{i}]" and n_rows == want[
+            # the value: matrix[i], possibly through a local bound to it
+            # in the same loop body (`row = matrix[i]`)
+            val_ = src(c.value)
+            if isinstance(c.value, ast.Name):
+                bd = [b_ for b_ in lp.body if isinstance(
+                    b_, ast.Assign) and len(b_.targets) == 1 and isinstance(
+                    b_.targets[0], ast.Name)
+                    and b_.targets[0].id == c.value.id]
+                if len(bd) == 1 and lp.body.index(bd[0]) < lp.body.index(c):
+                    val_ = src(bd[0].value)
+            okc = okc or (t in (f"{objn}[{i},:]", f"{objn}[{i}]")
+                          and val_ == f"{mat}[{i}]" and n_rows == want[
                               "n_different_items"])
         okc = okc or (t in (f"{objn}[:]", f"{objn}[:,:]")
                       and src(c.value) == mat)
